@@ -5,7 +5,8 @@ import PsModel.Spec.C12
 
 `C12 (life legacy|new (SVC…) (OP…))` → `ok model=(STEP…) spec=(STEP…)`
   OP   = (define ctx fn|- var gen ((svc resp)…)) | (start ctx (gen…)) | (delete ctx var) | (unload ctx)
-       | (obs) | (call svc rr ctxval ((k v)…)) | (calls svc rr ctxval (((k v)…)…))    only these print a STEP;
+       | (obs) | (call svc rr ctxval ((k v)…)) | (scall …: the same call made by a script)
+       | (calls svc rr ctxval (((k v)…)…))                                            only these print a STEP;
          `calls` = overlapping calls of one service → (calls (call …) (call …) …), one answer per call
   STEP = (state (svc has cnt owner gen resp)… (flags inadm underflow))   for an obs   (spec: (svc has gen resp))
        | (call notfound | invalid | (ran gen ((k v)…) rr))               for a call
@@ -38,6 +39,7 @@ inductive DOp
   | life (op : Op)
   | call (svc : Svc) (rr : Bool) (ctxVal : String) (data : Kw)
   | calls (svc : Svc) (rr : Bool) (ctxVal : String) (datas : List Kw)      -- overlapping calls of one service
+  | scall (svc : Svc) (rr : Bool) (ctxVal : String) (data : Kw)           -- the call is made by a script (service.call)
   | obs
 
 def dop? (x : Sexp) : Option DOp :=
@@ -54,6 +56,10 @@ def dop? (x : Sexp) : Option DOp :=
     let r ← rr.bool?
     let datas ← Sexp.mapM? (Sexp.listOf? kv?) ds
     pure (.calls svc r cv datas)
+  | .list [.atom "scall", .atom svc, rr, .atom cv, d] => do
+    let r ← rr.bool?
+    let data ← Sexp.listOf? kv? d
+    pure (.scall svc r cv data)
   | .list [.atom "call", .atom svc, rr, .atom cv, d] => do
     let r ← rr.bool?
     let data ← Sexp.listOf? kv? d
@@ -70,6 +76,7 @@ def kwS (k : Kw) : Sexp := .list (k.map (fun p => .list [.atom p.1, .atom p.2]))
 def callS : CallOut → Sexp
   | .notFound => .list [.atom "call", .atom "notfound"]
   | .invalid => .list [.atom "call", .atom "invalid"]
+  | .lookupError => .list [.atom "call", .atom "keyerror"]
   | .ran g kw rr => .list [.atom "call", .list [.atom "ran", sxn g, kwS kw, sxb rr]]
 
 def stateS (univ : List Svc) (st : MState) : Sexp :=
@@ -102,6 +109,7 @@ def runM (cfg : Cfg) (univ : List Svc) : MState → List DOp → List Sexp
   | st, .life op :: r => runM cfg univ (step cfg st op) r
   | st, .obs :: r => stateS univ st :: runM cfg univ st r
   | st, .call k rr cv d :: r => callS (callOutcome cfg st.reg k cv d rr) :: runM cfg univ st r
+  | st, .scall k rr cv d :: r => callS (scriptCallOutcome cfg st.reg k cv d rr) :: runM cfg univ st r
   | st, .calls k rr cv ds :: r =>
     .list (.atom "calls" :: (overlapOutcome cfg st.reg k cv ds rr).map callS) :: runM cfg univ st r
 
@@ -110,6 +118,8 @@ def runS (univ : List Svc) : SState → List DOp → List Sexp
   | s, .life op :: r => runS univ (sStep s op) r
   | s, .obs :: r => sstateS univ s :: runS univ s r
   | s, .call k rr cv d :: r => callS (sCall s k cv d rr) :: runS univ s r
+  | s, .scall k rr cv d :: r =>
+    callS (sCall s k cv d (rr || (match sHandler s k with | some h => h.resp == .only | none => false))) :: runS univ s r
   | s, .calls k rr cv ds :: r => .list (.atom "calls" :: ds.map (fun d => callS (sCall s k cv d rr))) :: runS univ s r
 
 def ty? : String → Option Ty
